@@ -5,7 +5,7 @@ CONSTANTS
   MaxEpoch = 1
   BugH6 = TRUE
   CatSet = "c19s"
-  Ops = {"Put", "Bcast", "SetMode", "Evacuate"}
+  Ops = {"Put", "Bcast", "SetMode", "EvacuateQ"}
   Modes = {"rw", "ro"}
   HealthyLock = FALSE
   MaxInFlight = 1
